@@ -160,7 +160,7 @@ def c03(run):
 
 
 def c06(run):
-    return generic_check(run, [], [],
+    return generic_check(run, [("MC_table_w2q.cfg", "MC_table.tla", {"timeout": 300})], [("MC_table_w2t.cfg", "MC_table.tla", {"timeout": 1500, "workers": 12})],
         [("table", ["table:te24:collide:20:1200:table", "table:te24:zero:12:700:table:plan2=mixed", "table:t1:fewpos:16:500:table"]),
          ("table2", ["table:te32:onegroup:14:800:table", "table:te24:mixed:30:600:table:plan2=collide"])],
         [("table3", ["table:te208:collide:24:4000:table", "table:tea64:max:16:3000:table", "table:te24:lowbit:14:3000:table"]),
@@ -169,7 +169,7 @@ def c06(run):
 
 
 def c07(run):
-    return generic_check(run, [], [],
+    return generic_check(run, [("MC_set_w2q.cfg", "MC_set.tla", {"timeout": 300})], [("MC_set_w2t.cfg", "MC_set.tla", {"timeout": 1500, "workers": 12})],
         [("sets", ["set:k8t:collide:20:900:set", "set:k8t:fewpos:16:1200:setalg", "set:k4:zero:12:700:setalg:plan2=mixed"]),
          ("sets2", ["set:k8t:mixed:24:900:setalg:plan2=collide", "set:k1:onegroup:16:700:set"])],
         [("sets3", ["set:k8t:collide:20:4000:setalg:plan2=max", "set:k2:posfix:14:3000:setalg", "set:k8:tagfix:30:3000:set"]),
